@@ -263,7 +263,9 @@ def check_reference_collection(db, chk):
                     n += 1
                 fl = tuple(chain) + fl
             it.events.append(("insert", fl))
-            return True
+            # HashSet::insert answers "was it new?": both answers are explored, so that a collection step that is
+            # skipped because an earlier path was already known (e.g. a fragment shared with another manifest) shows up
+            return it.fork_bool(("insert-was-new", len(it.events)))
         hooks = tracing_hooks() + [("std::collections::HashSet::<T, S, A>::insert", insert)]
         it = absint.Interp(db, hooks, lenient=True)
         insp = mk_adt("CleanupInspection", "CleanupInspection", {
@@ -273,8 +275,12 @@ def check_reference_collection(db, chk):
         from .C21 import Ref_to
         kinds = set()
         wrong = set()
+        npaths = 0
+        short = []
         try:
             for res in it.explore(lambda: it.call_fn(f, [UNK, UNK, UNK, in_ws, Ref_to(Ref_to(insp))])):
+                npaths += 1
+                here = set()
                 for e in it.events:
                     if e[0] == "insert":
                         fl = e[1]
@@ -282,9 +288,12 @@ def check_reference_collection(db, chk):
                         other = "verified_files" if in_ws else "referenced_files"
                         k = [x for x in fl if x in KIND_OF]
                         if k:
-                            kinds.add(k[-1])
+                            here.add(k[-1])
                         if other in fl or want not in fl:
                             wrong.add(fl)
+                kinds |= here
+                if here != set(KIND_OF):
+                    short.append(sorted(set(KIND_OF) - here))
         except Abort as e:
             chk.ob(R, "interp:in_working_set=%s" % in_ws, False, "interpreter aborted (fail closed): %s" % e, f.loc())
             continue
@@ -292,6 +301,10 @@ def check_reference_collection(db, chk):
                "all inserts go to %s (misdirected: %s)" % ("referenced_files" if in_ws else "verified_files", sorted(wrong)), f.loc())
         chk.ob(R, "all-kinds:in_working_set=%s" % in_ws, kinds == set(KIND_OF),
                "file kinds collected: %s (required: %s)" % (sorted(kinds), sorted(KIND_OF)), f.loc())
+        # on EVERY success path (manifest with a fragment that has data files and a deletion file, a transaction file and an
+        # index), whatever the sets already contained, every kind is collected: collection does not depend on set contents
+        chk.ob(R, "every-path-all-kinds:in_working_set=%s" % in_ws, npaths >= 1 and not short,
+               "%d success path(s) explored (both answers of every HashSet::insert); paths that skip a kind: %s" % (npaths, short[:4] or "none"), f.loc())
     # AGREE: ReferencedFiles has exactly the reviewed kinds (a new kind of referenced file needs a deletion class)
     adt = db.adts.get("dataset::cleanup::ReferencedFiles")
     fields = sorted(x["name"] for x in adt["variants"][0]["fields"]) if adt else []
